@@ -21,6 +21,9 @@ Proved (for all trees / worlds, no size bound):
   remove attribute, comment, insert / remove text item, add_to_file, remove_from_file, remove_file, set_version; the driver
   answers these requests with the very step function the theorem is about, `Model/Step.lean`) the parent fields agree with
   the structure in every model.
+* no element occurs twice (`C03_no_element_shared_reachable`): in every state reachable by a guarded history of the core
+  operations (the guards of C04, `OpOk`) the element ids of each model are pairwise different and below the next id to be
+  issued — the model's form of "each sub-element has ONE parent that lists it".
 Partial: rename, move, copy, sort, set_reference_target and loading are not in the core set (their effect on the tree is
 compared with the library after every request: the dump includes every parent field); the iterators and the behaviour
 through stale handles are decided by the direct oracle on the real library (parent / position / iterators / stale-handle
@@ -28,6 +31,7 @@ probes after every request).
 -/
 import AutosarVerif.Lemmas.WorldOps
 import AutosarVerif.Lemmas.Reachable
+import AutosarVerif.Lemmas.IndexReach
 
 namespace AV.C03
 open AV.W AV.W.Items
@@ -67,5 +71,14 @@ theorem C03_every_reachable_state_is_a_tree (S : Spec) (V : Env) (rootAttrs : Li
 
 theorem C03_core_step_keeps_tree (S : Spec) (V : Env) (rootAttrs : List (Nat × CDv)) (w : World) (op : Op) (h : Inv w) :
     Inv (applyOp S V rootAttrs w op).1 := applyOp_inv S V rootAttrs w op h
+
+/-- in every reachable state of a guarded history no element is shared: ids are pairwise different in every model -/
+theorem C03_no_element_shared_reachable (S : Spec) (V : Env) (vOk : Nat) (rootAttrs : List (Nat × CDv)) (hH : IdxHyp S V vOk)
+    (ops : List Op) (hops : ∀ op ∈ ops, OpOk S vOk op) :
+    ∀ m ∈ (run S V rootAttrs ops).models, m.rootItems.ids.Nodup ∧
+      (m.rootIssued = true → ∀ i ∈ m.rootItems.ids, i < (run S V rootAttrs ops).nextId) := by
+  intro m hm
+  have h := run_winv S V vOk rootAttrs hH ops hops m hm
+  exact ⟨h.ids, h.bound⟩
 
 end AV.C03
